@@ -68,6 +68,11 @@ pub struct Case {
     /// stream n): requests that reach a backend connection whose SETTINGS are still awaited
     #[serde(default)]
     pub slow_settings: Option<(u16, u16)>,
+    /// (start ms, duration ms): the client does not read from its connection in that period (it keeps
+    /// sending): with a response larger than the socket buffers sozu's write side blocks in the middle of a
+    /// frame while DATA keeps arriving from the same peer
+    #[serde(default)]
+    pub client_read_pause: Option<(u16, u16)>,
 }
 
 /// Known finding (frame storm): sozu's session loop gives up after 10 000 iterations of one readiness
@@ -172,14 +177,30 @@ pub fn strategy(flow_focus: bool, max: usize, max_streams: usize) -> impl Strate
     // who withholds credit: 0 = the client only, 1 = the backend only, 2 = both (head-of-line finding: safety
     // oracles only when it stalls), 3 = nobody
     let mode = if flow_focus { prop_oneof![3 => Just(0u8), 3 => Just(1u8), 1 => Just(2u8), 1 => Just(3u8)].boxed() } else { prop_oneof![1 => Just(2u8), 3 => Just(3u8)].boxed() };
-    (any::<u64>(), any::<bool>(), peer(flow_focus), peer(flow_focus), prop::collection::vec(stream_spec(max), 1..=max_streams), mode, proptest::option::weighted(0.25, (1u16..80, 0u16..40))).prop_map(
-        move |(seed, backend_h2, mut client, mut backend, mut streams, mode, slow_settings)| {
+    (any::<u64>(), any::<bool>(), peer(flow_focus), peer(flow_focus), prop::collection::vec(stream_spec(max), 1..=max_streams), mode, proptest::option::weighted(0.25, (1u16..80, 0u16..40)), proptest::option::weighted(if flow_focus { 0.0 } else { 0.08 }, (0u16..200, 2000u16..2600, 10usize..13, 20_000usize..60_000))).prop_map(
+        move |(seed, backend_h2, mut client, mut backend, mut streams, mode, slow_settings, bulk)| {
             if flow_focus {
                 // keep transfers short enough for drip schedules to finish: body sizes capped
                 for s in streams.iter_mut() {
                     s.req_len = s.req_len.min(120_000);
                     s.resp_len = s.resp_len.min(120_000);
                 }
+            }
+            // bulk scenario: one download far above the socket buffers while the client pauses reading and
+            // uploads on a second stream
+            let mut client_read_pause = None;
+            if let Some((start, dur, mib, up)) = bulk {
+                streams.truncate(2);
+                while streams.len() < 2 {
+                    streams.push(StreamSpec { req_len: 0, resp_len: 0, req_frames: vec![], req_pad: None, resp_frames: vec![], resp_pad: None });
+                }
+                streams[0].req_len = 3;
+                streams[0].resp_len = mib << 20;
+                streams[0].resp_frames = vec![];
+                streams[1].req_len = up;
+                streams[1].req_frames = vec![1000];
+                streams[1].resp_len = 17;
+                client_read_pause = Some((start, dur));
             }
             let make_generous = |p: &mut PeerSpec, biggest: usize| {
                 p.auto = true;
@@ -190,13 +211,16 @@ pub fn strategy(flow_focus: bool, max: usize, max_streams: usize) -> impl Strate
             let biggest_req = streams.iter().map(|s| s.req_len).max().unwrap_or(0);
             let biggest_resp = streams.iter().map(|s| s.resp_len).max().unwrap_or(0);
             let mode = if mode == 1 && !backend_h2 { 0 } else { mode };
+            // the bulk scenario needs a client window above the download, or flow control stops sozu long
+            // before the socket does
+            let mode = if client_read_pause.is_some() { 3 } else { mode };
             if mode == 0 || mode == 3 {
                 make_generous(&mut backend, biggest_req);
             }
             if mode == 1 || mode == 3 {
                 make_generous(&mut client, biggest_resp);
             }
-            Case { seed, backend_h2, client, backend, streams, strict: false, slow_settings: if backend_h2 { slow_settings } else { None } }
+            Case { seed, backend_h2, client, backend, streams, strict: false, slow_settings: if backend_h2 { slow_settings } else { None }, client_read_pause }
         },
     )
 }
@@ -394,6 +418,12 @@ fn scenario_inner(lab: &mut H2Lab, case: &Case, tag: &str) -> CheckResult {
         }
         // send request bodies (one after the other; incoming frames are processed while waiting for credit)
         for i in 0..next_to_open {
+            // bulk scenario: the upload starts in the middle of the read pause, once sozu's write side is blocked
+            if let (Some((start, dur)), true) = (case.client_read_pause, i >= 1) {
+                if (started.elapsed().as_millis() as u64) < start as u64 + dur as u64 / 2 {
+                    continue;
+                }
+            }
             if headers_sent[i] && !body_sent[i] {
                 let s = &case.streams[i];
                 let body = content(case.seed ^ (0xB000 + i as u64), s.req_len);
@@ -436,6 +466,13 @@ fn scenario_inner(lab: &mut H2Lab, case: &Case, tag: &str) -> CheckResult {
         }
         if (0..n).all(|i| next_to_open > i && finished(&c, i)) {
             break;
+        }
+        if let Some((start, dur)) = case.client_read_pause {
+            let e = started.elapsed().as_millis() as u64;
+            if e >= start as u64 && e < start as u64 + dur as u64 {
+                std::thread::sleep(Duration::from_millis(5));
+                continue;
+            }
         }
         match c.next_frame(Instant::now() + Duration::from_millis(10)) {
             H2Event::Frame(_) => {}
@@ -530,6 +567,7 @@ fn scenario_inner(lab: &mut H2Lab, case: &Case, tag: &str) -> CheckResult {
     rep.class(if case.backend_h2 { "h2->h2c" } else { "h2->h1" });
     rep.class_if(zero_wait && big, "zero_window_wait_and_body_over_initial_window");
     rep.class_if(case.streams.len() >= 2, "concurrent_streams_2+");
+    rep.class_if(case.client_read_pause.is_some(), "bulk_download_with_client_read_pause_and_upload");
     rep.class_if(case.slow_settings.is_some() && case.streams.len() >= 2, "stream_opened_while_backend_settings_awaited");
     rep.class_if(boundary, "size_within_9_of_a_boundary");
     rep.class_if(case.client.resettle.is_some() || case.backend.resettle.is_some(), "mid_connection_settings");
